@@ -780,7 +780,7 @@ func (Prop) Generate(r *fw.Rand, tier string) []fw.Case {
 }
 
 func (Prop) Describe(cfg *fw.Config) {
-	cfg.Rule = "stress scenarios on real components: (shard) 4 writers with their own series, a snapshotter, a compactor of all files, a writer+deleter of another measurement and 2 readers on one shard for 0.4 s (quick) / 1.5 s (thorough), inmem and tsi1: every read must hold all points acknowledged before it began, and at rest and after a reopen all acknowledged points; (field) 800 (quick) / 3000 (thorough) rounds of 4 goroutines writing one new field with four different types: exactly one is accepted and exactly its value is readable; (hh) 4 appenders and a drainer on a hinted-handoff queue with 4 KB segments: every acknowledged block is drained once, in per-appender order; (hhsend) 4 appenders against the real sender (NodeProcessor.SendWrite in a loop) with a recording shard writer: every acknowledged block is delivered, in per-appender order, none skipped; a watchdog reports workers that do not stop; thorough tier: the harness is built with the Go race detector (a report ends the run); non-trivial = every scenario; distinct = distinct op list"
+	cfg.Rule = "stress scenarios on real components: (shard) 4 writers with their own series, a snapshotter, a compactor of all files, a writer+deleter of another measurement and 2 readers on one shard for 0.4 s (quick) / 1.5 s (thorough), inmem and tsi1: every read must hold all points acknowledged before it began, and at rest and after a reopen all acknowledged points; (field) 800 (quick) / 3000 (thorough) rounds of 4 goroutines writing one new field with four different types: exactly one is accepted and exactly its value is readable; (hh) 4 appenders and a drainer on a hinted-handoff queue with 4 KB segments: every acknowledged block is drained once, in per-appender order; (hhsend) 4 appenders against the real sender (NodeProcessor.SendWrite in a loop) with a recording shard writer: every acknowledged block is delivered, in per-appender order, none skipped; (ooo) one writer sending a series in descending time order against four readers: every read holds every point acknowledged before it began, once; (newfields) rounds of eight goroutines writing different new fields of one measurement at once: every acknowledged write is readable, also after a restart; (hh, odd seeds) pausing appenders on 700-byte segments; (hhcatchup) a reader that has caught up meets a burst of eight appends when it exhausts the head segment (three-block segments): every accepted block is handed out once; a watchdog reports workers that do not stop; thorough tier: the harness is built with the Go race detector (a report ends the run); non-trivial = every scenario; distinct = distinct op list"
 }
 
 func (Prop) Trivial(c fw.Case, out []string) bool { return false }
